@@ -429,7 +429,9 @@ class C03(ReduceProp):
     rule = ("chunked cases with 2-12 blocks; every case is executed under a split_every drawn from 2..#blocks (all tree depths), "
             "on the synchronous scheduler, the threaded scheduler and the harness's executor that runs the real task graph in a "
             "seeded random topological order; each result is compared with the Lean model (given that split_every), the NumPy "
-            "oracle, and bitwise with a reference run (sync, split_every=4); distinct = hash of the case")
+            "oracle, and bitwise with a reference run (sync, split_every=4); plus chunked scans (nancumsum / ffill / bfill, 5-16 "
+            "blocks) and rank-2 cohort reductions with fan-in 2-4 under sync / threads / seeded random topological orders, compared "
+            "with the eager call; distinct = hash of the case")
     quick_n = 500
     thorough_n = 6000
 
@@ -493,6 +495,70 @@ class C03(ReduceProp):
             return (f"value depends on split_every/scheduler at labels {labs}: {a.tolist()} (se={c.split_every},{c.scheduler}) "
                     f"vs {b.tolist()} (se=4,sync)")
         return None
+
+
+    # -- scans and rank-2 cohort reductions under other fan-ins / schedules (no Lean line: compared with the eager call) ---------
+    def after_cases(self, cases, impls, rep: Report):
+        import dask
+        import dask.array as da
+        import numpy as np
+        import flox
+        from flox.core import groupby_scan
+
+        from . import graphexec
+
+        rng = random.Random(len(cases) * 104729 + sum(len(c.vals) for c in cases[:40]))
+        n_scan = max(40, len(cases) // 8)
+        for _ in range(n_scan):
+            func = rng.choice(["nancumsum", "nancumsum", "ffill", "bfill"])
+            n = rng.randint(5, 16)
+            k = rng.randint(1, 3)
+            labels = np.array([rng.randrange(k) for _ in range(n)])
+            vals = np.array([NAN if rng.random() < 0.25 else float(rng.choice([-3, -1, 0, 1, 2, 5])) for _ in range(n)])
+            chunks = tuple(gen_chunks(rng, n, rng.choice(["ones", "ones", "random"])))
+            sched = rng.choice(["sync", "threads", f"random:{rng.randrange(10**6)}", f"random:{rng.randrange(10**6)}"])
+            case = {"op": "scan", "func": func, "vals": core.jsonable(vals.tolist()), "labels": labels.tolist(), "chunks": list(chunks),
+                    "scheduler": sched}
+            rep.evaluations += 1
+            rep.dist["scan-stream:" + sched.split(":")[0]] += 1
+            try:
+                want = np.asarray(groupby_scan(vals, labels, func=func, axis=-1))
+                lazy = groupby_scan(da.from_array(vals, chunks=(chunks,)), labels, func=func, axis=-1)
+                if sched == "sync":
+                    got = lazy.compute(scheduler="sync")
+                elif sched == "threads":
+                    got = lazy.compute(scheduler="threads", num_workers=4)
+                else:
+                    got = graphexec.assemble_1d(graphexec.execute(lazy, random.Random(int(sched.split(":")[1]))))
+            except Exception as e:  # noqa
+                rep.direct.append((case, f"scan-stream: raised {type(e).__name__}: {str(e)[:160]}"))
+                continue
+            if not np.array_equal(np.asarray(got), want, equal_nan=True):
+                rep.direct.append((case, f"scan-stream: {sched} run of the chunked scan gives {np.asarray(got).tolist()}, eager {want.tolist()}"))
+        for _ in range(max(40, len(cases) // 8)):
+            # rank-2 values, 1-D labels, flox's own per-cohort tree with a small fan-in
+            func = rng.choice(["sum", "nanmax", "count", "nanmean", "nanlast", "nanargmax"])
+            n = rng.randint(6, 16)
+            k = rng.randint(1, 3)
+            labels = np.array([i % k for i in range(n)])
+            vals = np.array([[NAN if rng.random() < 0.2 else float(rng.choice([-3, -1, 0, 1, 2, 5])) for _ in range(n)] for _ in range(2)])
+            chunks = tuple(gen_chunks(rng, n, rng.choice(["ones", "ones", "random"])))
+            se = rng.choice([2, 2, 3, 4])
+            sched = rng.choice(["sync", "threads"])
+            case = {"op": "rank2-cohorts", "func": func, "vals": core.jsonable(vals.tolist()), "labels": labels.tolist(),
+                    "chunks": list(chunks), "split_every": se, "scheduler": sched}
+            rep.evaluations += 1
+            rep.dist["rank2-cohorts-stream"] += 1
+            try:
+                want = np.asarray(flox.groupby_reduce(vals, labels, func=func, engine="numpy")[0])
+                with dask.config.set(split_every=se):
+                    got = flox.groupby_reduce(da.from_array(vals, chunks=((1, 1), chunks)), labels, func=func, engine="numpy",
+                                              method="cohorts")[0].compute(scheduler=sched)
+            except Exception as e:  # noqa
+                rep.direct.append((case, f"rank2-cohorts-stream: raised {type(e).__name__}: {str(e)[:160]}"))
+                continue
+            if not np.allclose(np.asarray(got, dtype="float64"), np.asarray(want, dtype="float64"), rtol=1e-12, atol=0, equal_nan=True):
+                rep.direct.append((case, f"rank2-cohorts-stream: split_every={se} gives {np.asarray(got).tolist()}, eager {want.tolist()}"))
 
 
 def _depth(n, k):
